@@ -135,7 +135,24 @@ fn gen_payload(rng: &mut Rng, g: &Grammar, allow_bare: bool) -> (Vec<Tok>, Strin
     let tag = rng.pick(UNKNOWN_TAGS).to_string();
     let mut out = Vec::new();
     let block = !allow_bare || rng.coin();
-    if block {
+    if block && rng.chance(1, 150) {
+        // a deep chain of nested unknown blocks (the skip counts /begin and /end; real files never
+        // nest this deep, but a counter must not depend on that)
+        let depth = *rng.pick(&[100usize, 127, 128, 200, 260, 300, 1000]);
+        out.push(Tok::begin());
+        out.push(Tok::word(TK::Tag, &tag));
+        for k in 0..depth {
+            out.push(Tok::begin());
+            out.push(Tok::word(TK::Tag, &format!("LEVEL_{k}")));
+        }
+        scalar(rng, g, &mut out);
+        for k in (0..depth).rev() {
+            out.push(Tok::end());
+            out.push(Tok::word(TK::EndTag, &format!("LEVEL_{k}")));
+        }
+        out.push(Tok::end());
+        out.push(Tok::word(TK::EndTag, &tag));
+    } else if block {
         unknown_block(rng, g, &tag, 0, &mut out);
     } else {
         out.push(Tok::word(TK::Tag, &tag));
